@@ -10,6 +10,8 @@ FR = "tola.assembly.fragment"
 SC = "tola.assembly.scaffold"
 OR = "tola.assembly.overlap_result"
 FM = "tola.assembly.format"
+FIM = "tola.fasta.index"
+FI = "tola.fasta.index"
 FO = IA + ".IndexedAssembly.find_overlaps"
 
 MUTANTS = [
@@ -63,6 +65,13 @@ MUTANTS = [
     ("C18", OR + ".OverlapResult.overhang_if_end_removed", OR, "for r in self.rows[-2::-1]:", "for r in self.rows[-1::-1]:"),
     ("C18", OR + ".OverlapResult.fragment_start_if_trimmed", OR, "return frag.start + self.end_overhang", "return frag.start + self.start_overhang"),
     ("C02", OR + ".OverlapResult.to_scaffold", OR, "if self.bait.strand == -1:", "if self.bait.strand == 1:"),
+    # C03 / C04 / C13
+    ("C03", FI + ".FastaIndex.sequence_bytes", FIM, "fh.seek(info.file_offset + frst_offset + mll * frst_line)", "fh.seek(info.file_offset + frst_offset + rpl * frst_line)"),
+    ("C03", FI + ".FastaIndex.sequence_bytes", FIM, "last_whole_line = last_line if last_offset == 0 else last_line - 1", "last_whole_line = last_line - 1 if last_offset == 0 else last_line"),
+    ("C03", FI + ".FastaIndex.sequence_bytes", FIM, "last_line = (end - 1) // rpl", "last_line = end // rpl"),
+    ("C03", FI + ".FastaIndex.sequence_bytes", FIM, "seq.write(fh.read(rpl - frst_offset))\n            fh.seek(line_end_bytes, 1)", "seq.write(fh.read(rpl - frst_offset))\n            fh.seek(1, 1)"),
+    ("C03", FI + ".FastaIndex.sequence_bytes", FIM, "start -= 1  # Switch to Python coordinates", "pass"),
+    ("C03", FI + ".FastaIndex.sequence_bytes", FIM, "            if last_offset:\n                seq.write(fh.read(last_offset))", "            seq.write(fh.read(last_offset + 1))"),
     # C06
     ("C06", FM + ".format_agp", FM, "            p += row.length\n", "            pass\n"),
     ("C06", FM + ".format_agp", FM, "str(i + 1),", "str(i),"),
